@@ -40,7 +40,8 @@ CONSTANTS Prods, Cons, Stoppers,
                         \* _ThreadSafeIterator (piter_fn / pmap); FALSE: one input per producer (piter_multiplex)
           SrcN, SrcFail,\* shared input: number of items, failing position (0 = none)
           Steps,        \* [Cons -> Int] DequeueIterator num_steps for mode "diter" (-1 = until exhausted)
-          Fixes         \* subset of {"stop_notify_enqueuers", "stopped_flag", "batch_recheck_done"}:
+          Fixes         \* subset of {"stop_notify_enqueuers", "stopped_flag", "batch_recheck_done",
+                        \*            "batch_keeps_partial_on_error"}:
                         \* the repairs recorded in known_findings.json that the working tree contains.
                         \* The empty set is the pinned commit; TLC rejects it (see checks/c04, c05).
 
@@ -330,7 +331,7 @@ BTop(c, r) == IF Full(c, r) THEN ownD' = NoOne /\ Goto(c, "b_final")
 
 \* get_nowait raised StopIteration / the exception inside get_batch (659-663)
 BRaise(c, kind) ==
-  IF (kind = "stop" /\ res[c] # <<>>) \/ (kind = "exc" /\ IgnoreError)
+  IF (res[c] # <<>> /\ (kind = "stop" \/ "batch_keeps_partial_on_error" \in Fixes)) \/ (kind = "exc" /\ IgnoreError)
   THEN /\ ownD' = NoOne /\ Goto(c, "b_final") /\ UNCHANGED <<ended, pend, res>>    \* break
   ELSE /\ ownD' = NoOne /\ res' = [res EXCEPT ![c] = <<>>]                         \* raise e: the batch is dropped
        /\ LET e == IF kind = "stop" THEN <<"stop", returned>> ELSE <<kind>> IN
